@@ -315,6 +315,7 @@ type Exec struct {
 	samples    []map[string]string
 	sampleModels []SampleModel
 	extraNotes map[string]int
+	ptrIDs     map[interface{}]int // fake addresses for %p
 }
 
 func (ex *Exec) noteFunc(fn *ssa.Function, kind string) {
@@ -973,7 +974,11 @@ func (eng *Engine) runExec(ex0 *Exec, p *pending) (ex *Exec) {
 		case pathEnd:
 			ex.extraNotes["path-ended: "+r.why]++
 		case inconclusive:
-			ex.incon = append(ex.incon, r.msg+" at "+ex.site(ex.cur))
+			msg := r.msg + " at " + ex.site(ex.cur)
+			if eng.Cfg.Verbose {
+				msg += fmt.Sprintf(" stack %v notes %v", ex.stack(), ex.notes)
+			}
+			ex.incon = append(ex.incon, msg)
 		case budgetExceeded:
 			if eng.Cfg.BudgetViolation {
 				ex.addViolation("budget", "termination", r.what, ex.model)
@@ -1001,7 +1006,7 @@ func (eng *Engine) runExec(ex0 *Exec, p *pending) (ex *Exec) {
 			if eng.Cfg.Verbose {
 				panic(r)
 			}
-			ex.incon = append(ex.incon, fmt.Sprintf("engine error: %v at %s", r, ex.site(ex.cur)))
+			ex.incon = append(ex.incon, fmt.Sprintf("engine error: %v at %s stack %v", r, ex.site(ex.cur), ex.stack()))
 		}
 	}()
 	// package initialisation (concrete)
